@@ -41,6 +41,18 @@ def p_lossless(t):
         d8 = debcon.Debian822(t).to_dict()
         if d8 != single:
             return 'Debian822(text).to_dict() %r differs from get_paragraph_data %r' % (d8, single)
+    if t.strip() and 'PGP' not in t:
+        # the same paragraph from an open file: the whole text reaches the parser; and looking at the object (rendering
+        # it, printing it) leaves in it what was there
+        import io
+        o = debcon.Debian822(t)
+        before = o.to_dict()
+        f = debcon.Debian822(io.StringIO(t)).to_dict()
+        if f != before:
+            return 'Debian822(file object) gives %r, Debian822(text) gives %r' % (f, before)
+        o.dumps(), repr(o), str(o), len(o), list(o)
+        if o.to_dict() != before:
+            return 'after rendering, the object holds %r, before it held %r' % (o.to_dict(), before)
     if t.strip() and not t.lstrip().startswith('-----BEGIN PGP SIGNED MESSAGE-----'):
         # no clear-sign envelope around the text: the mapping object must not lose words either
         try:
